@@ -4,8 +4,8 @@ manifest stays valid and consistent while checks are added)."""
 import json, os, subprocess
 ROOT = os.path.dirname(os.path.dirname(os.path.abspath(__file__)))
 
-BASELINE_OFF = ("cd /repo && export GOFLAGS=-mod=mod GOPROXY=off GOSUMDB=off && "
-                "for m in . cmd/legacydump v2 v2/migrate; do (cd $m && go test -vet=off -count=1 -timeout 25m ./...) || exit 1; done")
+BASELINE_OFF = ("export GOFLAGS=-mod=mod GOPROXY=off GOSUMDB=off; "
+                "for m in . cmd/legacydump v2 v2/migrate; do (cd /repo/$m && go test -json -vet=off -count=1 -timeout 25m ./...); done")
 
 # id -> (level, technique, level text, level note, design ref)
 CHECKS = {}
